@@ -136,6 +136,7 @@ def goalF : Nat → Bool → P G
     else if t == "ltfd" then t2 (ltfdG ord0)
     else if t == "diseqfd" then t2 (diseqfdG ord0)
     else if t == "distinctfd" then t1 (distinctfdG ord0)
+    else if t == "probe" then some (.atom (liftRes fun st => .ok st), ts)
     else if t == "plusz" then t3 (pluszG ord0)
     else if t == "timesz" then t3 (timeszG ord0)
     else none
@@ -193,6 +194,18 @@ partial def bitsToHex : List Bool → String
 def truthTable (anys : List Nat) (cs : List Ext1) : String :=
   if cs.isEmpty then "-" else bitsToHex ((valuations (anys.take 3)).map fun γ => satisfied γ cs)
 
+/-- insertion sort of the result lines (counter mode compares multisets) -/
+def insertStr (x : String) : List String → List String
+  | [] => [x]
+  | y :: ys => if x ≤ y then x :: y :: ys else y :: insertStr x ys
+def sortStrs (l : List String) : List String := l.foldr insertStr []
+
+/-- counter mode (C22): the answer terms and the hook counters the final probe sees -/
+def showCounted (diff : Bool) (qs : List Term) (st : State) : String :=
+  let terms := qs.map (apply st.σ)
+  let cs := if diff then s!"{st.withs - st.takes} 0 {st.store.length}" else s!"{st.withs} {st.takes} {st.store.length}"
+  showTuple terms ++ " @ - @ " ++ " ".intercalate (terms.map fun _ => "-") ++ " @ " ++ cs
+
 def showAnswer (a : Answer) : String :=
   let order := a.anys
   let ts := " ; ".intercalate (a.terms.map (showTerm (fun x => order.idxOf? x)))
@@ -214,10 +227,10 @@ def topSolver (fuel : Nat) : G → State → Strm State Call := solveAt (defs or
 
 /-- Collect up to `k` answers (`k = 0`: all) within `fuel` units IN TOTAL: the loop of
     `ResultIterator::next` over `Solver::next`; one unit per engine `step` and per delivered answer. -/
-def collect (raw : Bool) (qs : List Term) (pf : Nat) : Nat → Nat → Strm State Call → List String → List String
+def collect (raw cnt diff : Bool) (qs : List Term) (pf : Nat) : Nat → Nat → Strm State Call → List String → List String
   | _, _, .empty, acc => acc.reverse
   | 0, _, _, acc => acc.reverse ++ ["FUEL"]
-  | fuel + 1, k, .lazy l, acc => collect raw qs pf fuel k (step (topSolver pf) l) acc
+  | fuel + 1, k, .lazy l, acc => collect raw cnt diff qs pf fuel k (step (topSolver pf) l) acc
   | fuel + 1, k, .unit st, acc => emit fuel k st .empty acc
   | fuel + 1, k, .cons st l, acc => emit fuel k st (.lazy l) acc
 where
@@ -225,9 +238,9 @@ where
     match st.panic with
     | some site => if site == "FUEL" then acc.reverse ++ ["FUEL"] else [s!"PANIC {site}"]
     | none =>
-      let ans := if raw then showRaw qs st else showAnswer (mkAnswer ord0 qs st)
+      let ans := if raw then showRaw qs st else if cnt then showCounted diff qs st else showAnswer (mkAnswer ord0 qs st)
       let acc := ans :: acc
-      if acc.length == k then acc.reverse else collect raw qs pf fuel k rest acc
+      if acc.length == k then acc.reverse else collect raw cnt diff qs pf fuel k rest acc
 
 def runProg (ts : Toks) : String :=
   match nat ts with
@@ -257,9 +270,15 @@ def runProg (ts : Toks) : String :=
               match fuel? with
               | none => "bad-case"
               | some fuel =>
+              let diff := fl.head? == some "cnd"
+              let cnt := fl.head? == some "cnt" || diff
+              let probe : G := .atom (liftRes fun st => .ok st)
               let s := if raw then topSolver fuel (Goal.conjOfList body) st0
+                       else if cnt then topSolver fuel (.fresh (Goal.conjOfList
+                         [eqG ord0 qv (Term.ofList qs), Goal.conjOfList body, reifyG ord0 qv, probe])) st0
                        else topSolver fuel (queryG ord0 qv qs body) st0
-              let answers := collect raw qs fuel fuel take s []
+              let answers := collect raw cnt diff qs fuel fuel take s []
+              let answers := if cnt then sortStrs answers else answers
               if answers.isEmpty then "none" else " || ".intercalate answers
         | [] => "bad-case"
       | none => "bad-case"
